@@ -32,7 +32,7 @@ let check_with (needs_lock : bool) (oracle : scase -> ev list -> bool) (fields :
       if r.obs_.hang then (OracleFail "implementation hangs (no reply / connection not ended within the timeout)", cross)
       else if (is_lock fields || not needs_lock) && not (oracle r.case_ il) then
         (OracleFail (Printf.sprintf "property oracle rejects the observed log (rule %s)\n    impl:  %s\n    model: %s"
-                       (string_of_z (turn_verdict r.case_ il).t_why) (show_log il)
+                       (string_of_z (turn_verdict r.case_ il).t_why ^ "/" ^ string_of_z (names_verdict r.case_ il).ns_why) (show_log il)
                        (show_log (if is_lock fields then r.model else strip_consume r.model))), cross)
       else (correspondence fields r, cross)
 
@@ -40,3 +40,10 @@ let check_C05 = check_with true oracle_C05
 let check_C06 = check_with true oracle_turns
 let check_C01 = check_with false oracle_C01
 let check_C12 = check_with false oracle_C12
+let check_C07 = check_with true oracle_names
+let check_C08 = check_with true oracle_names
+let check_C10 = check_with true oracle_turns
+let check_C13 = check_with true oracle_C13
+let check_C19 fields =
+  (* lock-step cases are also judged by the per-message discipline (Terminate rule) *)
+  check_with false (fun sc log -> oracle_C19 sc log && (not (is_lock fields) || oracle_turns sc log)) fields
